@@ -2,7 +2,7 @@
 # seedrun.sh -- run inside a `vp run --with-repo` snapshot: build everything against the snapshot of /repo,
 # then for each "seed:check,check,..." argument apply seeded/<seed>/patch.diff there, run the quick checks, undo.
 R=${VP_RUN_REPO:?needs vp run --with-repo}
-sed -i "s#path = \"/repo\"#path = \"$R\"#" harness/Cargo.toml harness/cfail/Cargo.toml
+sed -i "s#path = \"/repo\"#path = \"$R\"#" harness/Cargo.toml harness/cfail/Cargo.toml harness/probe/Cargo.toml
 cp /repo/Cargo.lock $R/ 2>/dev/null
 export VERIF_REPO=$R CARGO_NET_OFFLINE=true
 ./setup.sh > seedrun-setup.log 2>&1
